@@ -24,7 +24,7 @@ impl Property for C01 {
     const ID: &'static str = "C01";
     type Case = History;
     fn strategy(_tier: Tier) -> BoxedStrategy<History> {
-        (strat::ring_cfg(3), proptest::collection::vec(strat::step(strat::kind_memory().boxed(), 2, 5), 0..60)).prop_map(|(cfg, steps)| History { cfg, steps }).boxed()
+        (strat::ring_cfg(3), proptest::collection::vec(strat::step(strat::kind_memory().boxed(), 2, 5), 0..60)).prop_map(|(cfg, steps)| History { cfg, steps, teardown: None }).boxed()
     }
     fn cases(tier: Tier) -> u32 {
         tier.pick(6_000, 400_000)
@@ -48,7 +48,7 @@ impl Property for C02 {
     const ID: &'static str = "C02";
     type Case = History;
     fn strategy(_tier: Tier) -> BoxedStrategy<History> {
-        (strat::ring_cfg(4), proptest::collection::vec(strat::step(strat::kind_valued().boxed(), 1, 1), 0..70)).prop_map(|(cfg, steps)| History { cfg, steps }).boxed()
+        (strat::ring_cfg(4), proptest::collection::vec(strat::step(strat::kind_valued().boxed(), 1, 1), 0..70)).prop_map(|(cfg, steps)| History { cfg, steps, teardown: None }).boxed()
     }
     fn cases(tier: Tier) -> u32 {
         tier.pick(6_000, 400_000)
@@ -72,7 +72,7 @@ impl Property for C03 {
     const ID: &'static str = "C03";
     type Case = History;
     fn strategy(_tier: Tier) -> BoxedStrategy<History> {
-        (strat::ring_cfg(2), proptest::collection::vec(strat::step(strat::kind_basic().boxed(), 1, 1), 0..70)).prop_map(|(cfg, steps)| History { cfg, steps }).boxed()
+        (strat::ring_cfg(2), proptest::collection::vec(strat::step(strat::kind_basic().boxed(), 1, 1), 0..70)).prop_map(|(cfg, steps)| History { cfg, steps, teardown: None }).boxed()
     }
     fn cases(tier: Tier) -> u32 {
         tier.pick(6_000, 400_000)
@@ -96,7 +96,7 @@ impl Property for C06 {
     const ID: &'static str = "C06";
     type Case = History;
     fn strategy(_tier: Tier) -> BoxedStrategy<History> {
-        (strat::ring_cfg(3), proptest::collection::vec(strat::step(strat::kind_basic().boxed(), 1, 6), 0..70)).prop_map(|(cfg, steps)| History { cfg, steps }).boxed()
+        (strat::ring_cfg(3), proptest::collection::vec(strat::step(strat::kind_basic().boxed(), 1, 6), 0..70)).prop_map(|(cfg, steps)| History { cfg, steps, teardown: None }).boxed()
     }
     fn cases(tier: Tier) -> u32 {
         tier.pick(6_000, 400_000)
@@ -120,7 +120,7 @@ impl Property for C09 {
     const ID: &'static str = "C09";
     type Case = History;
     fn strategy(_tier: Tier) -> BoxedStrategy<History> {
-        (strat::ring_cfg(3), proptest::collection::vec(strat::step(strat::kind_basic().boxed(), 3, 1), 0..70)).prop_map(|(cfg, steps)| History { cfg, steps }).boxed()
+        (strat::ring_cfg(3), proptest::collection::vec(strat::step(strat::kind_basic().boxed(), 3, 1), 0..70)).prop_map(|(cfg, steps)| History { cfg, steps, teardown: None }).boxed()
     }
     fn cases(tier: Tier) -> u32 {
         tier.pick(6_000, 400_000)
@@ -139,5 +139,38 @@ impl Property for C09 {
     }
     fn assumptions() -> Vec<&'static str> {
         vec![SIM_ASSUMPTION]
+    }
+}
+
+pub struct C12;
+impl Property for C12 {
+    const ID: &'static str = "C12";
+    type Case = History;
+    fn strategy(_tier: Tier) -> BoxedStrategy<History> {
+        (strat::ring_cfg(3), proptest::collection::vec(strat::step(strat::kind_basic().boxed(), 1, 3), 0..40), strat::teardown())
+            .prop_map(|(mut cfg, steps, teardown)| {
+                // In-flight operations at Ring drop must fit the completion
+                // queue in the default generator: at least 16 CQ entries.
+                if cfg.cq_entries() < 16 {
+                    cfg.cq_log2 = Some(4);
+                }
+                History { cfg, steps, teardown: Some(teardown) }
+            })
+            .boxed()
+    }
+    fn cases(tier: Tier) -> u32 {
+        tier.pick(6_000, 400_000)
+    }
+    fn run(case: &History, ctx: &mut Ctx) {
+        let feats = interp::execute(case, Oracles { c12: true, ..Oracles::default() }, ctx);
+        ctx.nontrivial = feats.contains("ring-not-last") && feats.contains("ring-dropped-with-work");
+        classes(ctx, &feats);
+        ctx.fingerprint = super::fingerprint(case, &feats);
+    }
+    fn rule() -> &'static str {
+        "proptest histories (operations in every state: unpolled, blocked on a full queue, queued, running, abandoned, finished; optionally a ReadBufPool with live ReadBufs and extra SubmissionQueue clones) that end in Teardown(pi): a generated permutation of dropping {Ring, each queue handle, the AsyncFd, each future, the pool, each ReadBuf}, some drops on a helper thread, then wake() on a surviving handle. Oracle: no panic; each region mapped on the ring descriptor is unmapped exactly once with the same (addr,len) and nothing else; the ring descriptor is closed exactly once, after the last unmap; the Ring's drop submits what is queued, issues SYNC_CANCEL, leaves nothing in flight and reclaims every abandoned operation's state; a buffer ring is never freed while registered; after all handles are gone no simulator-issued descriptor is open, nothing is registered, no heap block or waker clone is left. Non-trivial = the Ring was not the last object dropped and something was queued or in flight. Distinct = distinct (ring class, feature set) fingerprints."
+    }
+    fn assumptions() -> Vec<&'static str> {
+        vec![SIM_ASSUMPTION, "the number of operations in flight when the Ring is dropped is at most ~48 with a completion queue of >= 16 entries (the overflow-at-drop class has its own regression replay under C06)"]
     }
 }
